@@ -221,7 +221,8 @@ impl Ctx {
             "wall_s": (self.elapsed() * 1000.0).round() / 1000.0,
             "violations": unlisted,
         });
-        let dir = format!("{}/evidence", vd);
+        // runs against deliberately broken trees (bin/mutants) keep their evidence out of evidence/
+        let dir = std::env::var("VERIF_EVIDENCE_DIR").unwrap_or_else(|_| format!("{}/evidence", vd));
         let _ = std::fs::create_dir_all(&dir);
         let path = format!("{}/{}.json", dir, self.id);
         if let Err(e) = std::fs::write(&path, serde_json::to_string_pretty(&evd).unwrap() + "\n") {
